@@ -97,7 +97,14 @@ func (svr *Server) handshakeDataChannel(wsc websocket.Conn) {
 	si, ok := svr.sessions.Load(channelID)
 	if ok {
 		session = si.(*Session)
-	} else {
+		// a data channel carries the media of its control channel: only the client
+		// that opened the control channel (same verified user, same stream path)
+		// may join it; to anybody else the channel does not exist
+		if wsc.Path() != session.wsPath || wsc.Username() != session.username {
+			session = nil
+		}
+	}
+	if session == nil {
 		code = 404
 		text = "NOT FOUND"
 	}
